@@ -47,6 +47,20 @@ for site, fn in GATE_SITES:
                                                                  ARB16 if src == "arb" else "all PRNG word streams"),
               stubs=RNG_STUBS if src == "rng" else [], funcs=[fn, "GenerationSource::gen_f64"])
 
+# ---------------------------------------------------------------------------------------------------
+# TAIL — cleanup_for_stop against shadow-state contracts (C01, C05, C09, C10, C11)
+ENV_STUBS = ["rs_conc: RandomState::new returns constant hasher keys (the real one issues a getrandom syscall)",
+             "rc_drop_slow_noop: Rc::drop_slow is a no-op (simulated cells are never freed; no claimed property observes freeing)"]
+TAIL_CONTRACTS = ["contracts (shadow stack of depth + MARK positions) for Generator::{has_mark,peek,pop,emit_opcode} and Stack::len; "
+                  "emit_opcode's contract asserts the reference precondition and applies the reference step (established on the real "
+                  "callees by families GUARD/STEP)"]
+H("tail_collapse_n5", "tail.rs", "TAIL", ["C01", "C05", "C09", "C10", "C11"], "quick",
+  "every stack of depth 0..5 with every MARK pattern, every protocol 0..5", stubs=ENV_STUBS + TAIL_CONTRACTS,
+  funcs=["Generator::cleanup_for_stop"], cost=3)
+H("tail_collapse_n8", "tail.rs", "TAIL", ["C01", "C05", "C09", "C10", "C11"], "thorough",
+  "every stack of depth 0..8 with every MARK pattern, every protocol 0..5", stubs=ENV_STUBS + TAIL_CONTRACTS,
+  funcs=["Generator::cleanup_for_stop"], cost=6)
+
 
 def units_for(prop, tier):
     out = []
